@@ -104,8 +104,12 @@ extern ssize_t mpt_encode_cobs(MPT_STRUCT(encode_state) *info, const struct iove
 		struct iovec tmp;
 		ssize_t pos = info->done;
 		
-		/* message in progress */
+		/* message in progress: starts with the first of its encoded bytes */
 		if (info->_ctx) {
+			if (info->_ctx > (size_t) pos + code) {
+				return MPT_ERROR(BadValue);
+			}
+			pos = pos + code - info->_ctx;
 			--len;
 		}
 		tmp.iov_base = cobs->iov_base;
